@@ -83,6 +83,7 @@ impl Spec {
                 Grain::OneShot => json!(["oneshot"]),
                 Grain::Uniform(s) => json!(["uniform", s]),
                 Grain::Choose(_) => json!(["choose"]),
+                Grain::InterruptedBursts(k, size) => json!(["interrupted_bursts", k, size]),
                 Grain::Script(_) => json!(["script"]),
             },
             "chunk": self.chunk,
@@ -99,6 +100,7 @@ impl Spec {
         let grain = match v["grain"][0].as_str().unwrap() {
             "oneshot" => Grain::OneShot,
             "uniform" => Grain::Uniform(v["grain"][1].as_u64().unwrap() as usize),
+            "interrupted_bursts" => Grain::InterruptedBursts(v["grain"][1].as_u64().unwrap() as u32, v["grain"][2].as_u64().unwrap() as usize),
             _ => Grain::Choose(Menu::AllSizes),
         };
         Spec {
@@ -119,6 +121,7 @@ impl Spec {
             Grain::Uniform(s) => format!("{s} byte(s) per read"),
             Grain::Choose(_) => format!("choices {:?}", self.forced.iter().map(|c| c.0).collect::<Vec<_>>()),
             Grain::Script(_) => "script".into(),
+            Grain::InterruptedBursts(k, size) => format!("{k} Interrupted answers before every read of up to {size} bytes"),
         };
         format!(
             "{g}, chunk {}{}{}{}",
@@ -321,6 +324,12 @@ pub fn c01_as(property: &str, subjects: &[Box<dyn Subject>], docs: &[Doc], param
                     let ex = run_spec(subject, input, &spec);
                     c01_compare(property, subject, input, &reference, &spec, &ex, acc);
                 }
+            }
+            // long bursts of Interrupted in front of every read (retry loops must not give up)
+            for (k, size, chunk) in [(12u32, usize::MAX, None), (40, 3, Some(2usize))] {
+                let spec = Spec { grain: Grain::InterruptedBursts(k, size), chunk, ..Spec::oneshot() };
+                let ex = run_spec(subject, input, &spec);
+                c01_compare(property, subject, input, &reference, &spec, &ex, acc);
             }
             // the document embedded behind an envelope that was advanced over before the parser was built
             for (k, s, chunk) in [(12usize, 16usize, None), (5, 2, Some(2usize)), (1, 1, Some(1))] {
